@@ -1,5 +1,6 @@
 import Cuckoo.Proofs.Resize
 import Cuckoo.Proofs.SpecMap
+import Cuckoo.Proofs.C02Aux
 /-!
 # C02 — sequential behaviour refines an associative map through every resize path
 
@@ -13,13 +14,13 @@ map.  An inserting / resizing call may instead end with one of the permitted fai
 is unchanged.  `seq_refines` lifts this to every finite operation sequence.
 -/
 namespace Cuckoo.Props.C02
-open Cuckoo Cuckoo.Model Cuckoo.Spec
+open Cuckoo Cuckoo.Model Cuckoo.Model.C02A Cuckoo.Spec
 variable {κ ν : Type} [DecidableEq κ]
 
 /-- a freshly constructed table is well formed and empty, for any initial capacity -/
 theorem init_refines (c : Cfg κ) (n : Nat) (hS : 0 < c.S) (hM : ∃ m, c.M = 2 ^ m) :
     Inv c (Table.init c n : Table κ ν) ∧ Rel c (Table.init c n : Table κ ν) [] := by
-  sorry
+  exact init_rel c n hS hM
 
 /-- `find_fn` / `update_fn` / `erase_fn` (hence `find`, `contains`, `update`, `erase`): found iff
 present; the functor sees the stored value; its effect (new value, erasure) is exactly what is applied -/
@@ -35,13 +36,13 @@ theorem fnOp_refines (c : Cfg κ) (canErase : Bool) (t : Table κ ν) (m : AMap 
       | .ret v' er => (t.fnOp c canErase k fn).2.res = .ok true ∧
           Rel c (t.fnOp c canErase k fn).1 (if canErase && er then m.erase k else m.set k v')
       | .throw v' => (t.fnOp c canErase k fn).2.res = .err .fnThrow ∧ Rel c (t.fnOp c canErase k fn).1 (m.set k v') := by
-  sorry
+  exact fnOp_spec c canErase t m k fn h hr
 
 /-- `find(key)` returning the value -/
 theorem findVal_refines (c : Cfg κ) (t : Table κ ν) (m : AMap κ ν) (k : κ) (h : Inv c t) (hr : Rel c t m) :
     Inv c (t.findVal c k).1 ∧ Rel c (t.findVal c k).1 m ∧
     (t.findVal c k).2 = (match m.lookup k with | some v => .ok v | none => .err .outOfRange) := by
-  sorry
+  exact findVal_spec c t m k h hr
 
 /-- what `uprase_fn` / `upsert` / `insert` / `insert_or_assign` must do to the abstract map, given the
 functor `fn`, whether it accepts a context, and whether its result may erase -/
@@ -73,7 +74,7 @@ theorem uprase_refines (c : Cfg κ) (locked : Bool) (t : Table κ ν) (m : AMap 
      ((t.uprase c locked k v ctxAware mayErase fn).2.1.res = (upraseSpec m k v ctxAware mayErase fn).1 ∧
       (t.uprase c locked k v ctxAware mayErase fn).2.1.calls = (upraseSpec m k v ctxAware mayErase fn).2.1 ∧
       Rel c (t.uprase c locked k v ctxAware mayErase fn).1 (upraseSpec m k v ctxAware mayErase fn).2.2)) := by
-  sorry
+  exact uprase_spec c locked t m k v ctxAware mayErase fn h hr hl
 
 /-- `rehash(n)`: contents unchanged whatever happens -/
 theorem rehash_refines (c : Cfg κ) (locked : Bool) (t : Table κ ν) (m : AMap κ ν) (n : Nat)
@@ -81,7 +82,7 @@ theorem rehash_refines (c : Cfg κ) (locked : Bool) (t : Table κ ν) (m : AMap 
     Inv c (t.rehash c locked n).1 ∧ Rel c (t.rehash c locked n).1 m ∧
     (locked = true → AllMig (t.rehash c locked n).1) ∧
     (match (t.rehash c locked n).2 with | .ok _ => True | .err e => ResizeErr e) := by
-  sorry
+  exact rehash_spec c locked t m n h hr hl
 
 /-- `reserve(n)`: contents unchanged whatever happens -/
 theorem reserve_refines (c : Cfg κ) (locked : Bool) (t : Table κ ν) (m : AMap κ ν) (n : Nat)
@@ -89,33 +90,33 @@ theorem reserve_refines (c : Cfg κ) (locked : Bool) (t : Table κ ν) (m : AMap
     Inv c (t.reserve c locked n).1 ∧ Rel c (t.reserve c locked n).1 m ∧
     (locked = true → AllMig (t.reserve c locked n).1) ∧
     (match (t.reserve c locked n).2 with | .ok _ => True | .err e => ResizeErr e) := by
-  sorry
+  exact reserve_spec c locked t m n h hr hl
 
 /-- `clear()` -/
 theorem clear_refines (c : Cfg κ) (t : Table κ ν) (m : AMap κ ν) (h : Inv c t) (hr : Rel c t m) :
     Inv c (t.clear c) ∧ Rel c (t.clear c) [] ∧ AllMig (t.clear c) := by
-  sorry
+  exact clear_rel c t h
 
 /-- `lock_table()`: same contents, every pending migration finished -/
 theorem lockTable_refines (c : Cfg κ) (t : Table κ ν) (m : AMap κ ν) (h : Inv c t) (hr : Rel c t m) :
     Inv c (t.lockTable c) ∧ Rel c (t.lockTable c) m ∧ AllMig (t.lockTable c) ∧ (t.lockTable c).old = none := by
-  sorry
+  exact lockTable_spec c t m h hr
 
 /-- the setters do not touch the contents -/
 theorem setMlf_refines (c : Cfg κ) (t : Table κ ν) (m : AMap κ ν) (x : Float) (h : Inv c t) (hr : Rel c t m) :
     Inv c (t.setMlf x).1 ∧ Rel c (t.setMlf x).1 m := by
-  sorry
+  exact ⟨(setMlf_spec c t m x h hr).1, (setMlf_spec c t m x h hr).2.1⟩
 
 theorem setMhp_refines (c : Cfg κ) (t : Table κ ν) (m : AMap κ ν) (x : Nat) (h : Inv c t) (hr : Rel c t m) :
     Inv c (t.setMhp x).1 ∧ Rel c (t.setMhp x).1 m := by
-  sorry
+  exact ⟨(setMhp_spec c t m x h hr).1, (setMhp_spec c t m x h hr).2.1⟩
 
 /-- `locked_table::erase(key)` -/
 theorem ltErase_refines (c : Cfg κ) (t : Table κ ν) (m : AMap κ ν) (k : κ) (h : Inv c t) (hr : Rel c t m)
     (hl : AllMig t) :
     Inv c (t.ltErase c k).1 ∧ AllMig (t.ltErase c k).1 ∧ Rel c (t.ltErase c k).1 (m.erase k) ∧
     (t.ltErase c k).2 = (match m.lookup k with | some _ => 1 | none => 0) := by
-  sorry
+  exact ltErase_spec c t m k h hr hl
 
 /-- `locked_table::insert(key, val)`: inserts iff absent; the returned position holds the key with its
 (new or previous) value -/
@@ -129,7 +130,7 @@ theorem ltInsert_refines (c : Cfg κ) (t : Table κ ν) (m : AMap κ ν) (k : κ
       Rel c (t.ltInsert c k v).1 (if inserted then m.add k v else m) ∧
       ∃ sl, (t.ltInsert c k v).1.cur.get c.S p.1 p.2 = some sl ∧ sl.key = k ∧
         sl.val = (match m.lookup k with | some old => old | none => v) := by
-  sorry
+  exact ltInsert_spec c t m k v h hr hl
 
 /-! ### every finite sequence of operations -/
 
@@ -216,7 +217,91 @@ def Good (c : Cfg κ) (s : MT κ ν) (m : AMap κ ν) : Prop :=
 /-- one step refines the abstract map -/
 theorem step_refines (c : Cfg κ) (s : MT κ ν) (m : AMap κ ν) (op : Op κ ν) (hg : Good c s m) :
     ∃ m', specStep s.locked m op (step c s op).2 m' ∧ Good c (step c s op).1 m' := by
-  sorry
+  obtain ⟨t, locked⟩ := s
+  obtain ⟨hi, hr, hl⟩ := hg
+  simp only at hi hr hl
+  cases op with
+  | fnOp ce k fn =>
+    cases locked with
+    | true => exact ⟨m, ⟨rfl, rfl⟩, hi, hr, hl⟩
+    | false =>
+      obtain ⟨a1, a2⟩ := fnOp_refines c ce t m k fn hi hr
+      cases hlook : m.lookup k with
+      | none =>
+        rw [hlook] at a2
+        obtain ⟨r1, r2, r3⟩ := a2
+        exact ⟨m, by simp [specStep, step, hlook, r1, r2], a1, r3, fun e => by cases e⟩
+      | some w =>
+        rw [hlook] at a2
+        obtain ⟨r1, r2⟩ := a2
+        cases hfn : fn w with
+        | ret v' er =>
+          rw [hfn] at r2
+          exact ⟨_, by simp [specStep, step, hlook, hfn, r1, r2.1], a1, r2.2,
+            fun e => by cases e⟩
+        | throw v' =>
+          rw [hfn] at r2
+          exact ⟨_, by simp [specStep, step, hlook, hfn, r1, r2.1], a1, r2.2,
+            fun e => by cases e⟩
+  | findVal k =>
+    cases locked with
+    | true => exact ⟨m, ⟨rfl, rfl⟩, hi, hr, hl⟩
+    | false =>
+      obtain ⟨a1, a2, a3⟩ := findVal_refines c t m k hi hr
+      exact ⟨m, by simp [specStep, step, a3], a1, a2, fun e => by cases e⟩
+  | uprase k v ca me fn =>
+    cases locked with
+    | true => exact ⟨m, ⟨rfl, rfl⟩, hi, hr, hl⟩
+    | false =>
+      obtain ⟨a1, _, a3⟩ := uprase_refines c false t m k v ca me fn hi hr (fun e => by cases e)
+      rcases a3 with ⟨e, r1, r2, r3, r4⟩ | ⟨r1, r2, r3⟩
+      · exact ⟨m, by simp [specStep, step, r1, r3, r2], a1, r4,
+          fun e => by cases e⟩
+      · exact ⟨_, by simp [specStep, step, r1, r2], a1, r3,
+          fun e => by cases e⟩
+  | rehash n =>
+    obtain ⟨a1, a2, a3, a4⟩ := rehash_refines c locked t m n hi hr hl
+    exact ⟨m, ⟨rfl, _, rfl, a4⟩, a1, a2, a3⟩
+  | reserve n =>
+    obtain ⟨a1, a2, a3, a4⟩ := reserve_refines c locked t m n hi hr hl
+    exact ⟨m, ⟨rfl, _, rfl, a4⟩, a1, a2, a3⟩
+  | clear =>
+    obtain ⟨a1, a2, a3⟩ := clear_refines c t m hi hr
+    exact ⟨[], ⟨rfl, rfl⟩, a1, a2, fun _ => a3⟩
+  | setMlf x =>
+    obtain ⟨a1, a2, a3⟩ := setMlf_spec c t m x hi hr
+    exact ⟨m, ⟨rfl, _, rfl⟩, a1, a2, fun e => a3 (hl e)⟩
+  | setMhp x =>
+    obtain ⟨a1, a2, a3⟩ := setMhp_spec c t m x hi hr
+    exact ⟨m, ⟨rfl, _, rfl⟩, a1, a2, fun e => a3 (hl e)⟩
+  | lockTable =>
+    cases locked with
+    | true => exact ⟨m, ⟨rfl, rfl⟩, hi, hr, hl⟩
+    | false =>
+      obtain ⟨a1, a2, a3, _⟩ := lockTable_refines c t m hi hr
+      exact ⟨m, ⟨rfl, rfl⟩, a1, a2, fun _ => a3⟩
+  | unlock => exact ⟨m, ⟨rfl, rfl⟩, hi, hr, fun e => by cases e⟩
+  | ltErase k =>
+    cases locked with
+    | false => exact ⟨m, ⟨rfl, rfl⟩, hi, hr, hl⟩
+    | true =>
+      obtain ⟨a1, a2, a3, a4⟩ := ltErase_refines c t m k hi hr (hl rfl)
+      exact ⟨_, by simp [specStep, step, a4], a1, a3, fun _ => a2⟩
+  | ltInsert k v =>
+    cases locked with
+    | false => exact ⟨m, ⟨rfl, rfl⟩, hi, hr, hl⟩
+    | true =>
+      obtain ⟨a1, a2, a3⟩ := ltInsert_refines c t m k v hi hr (hl rfl)
+      cases hres : (t.ltInsert c k v).2 with
+      | err e =>
+        rw [hres] at a3
+        exact ⟨m, by simp [specStep, step, hres, a3.1], a1, a3.2, fun _ => a2⟩
+      | ok pr =>
+        obtain ⟨p, ins⟩ := pr
+        rw [hres] at a3
+        obtain ⟨r1, r2, _⟩ := a3
+        subst r1
+        exact ⟨_, by simp [specStep, step, hres], a1, r2, fun _ => a2⟩
 
 /-- run a whole sequence, collecting the observations -/
 def run (c : Cfg κ) (s : MT κ ν) : List (Op κ ν) → MT κ ν × List (Obs ν)
@@ -234,16 +319,28 @@ def specRun (locked : Bool) (m : AMap κ ν) : List (Op κ ν) → List (Obs ν)
       specRun (match op with | .lockTable => true | .unlock => false | _ => locked) m1 rest os m'
   | _, _, _ => False
 
+private theorem step_locked (c : Cfg κ) (s : MT κ ν) (op : Op κ ν) :
+    (step c s op).1.locked = (match op with | .lockTable => true | .unlock => false | _ => s.locked) := by
+  obtain ⟨t, locked⟩ := s
+  cases op <;> cases locked <;> rfl
+
 /-- **C02**: every finite sequence of operations, from any good state, is a run of the abstract map and
 ends in a good state representing the final map -/
 theorem seq_refines (c : Cfg κ) (ops : List (Op κ ν)) (s : MT κ ν) (m : AMap κ ν) (hg : Good c s m) :
     ∃ m', specRun s.locked m ops (run c s ops).2 m' ∧ Good c (run c s ops).1 m' := by
-  sorry
+  induction ops generalizing s m with
+  | nil => exact ⟨m, rfl, hg⟩
+  | cons op rest ih =>
+    obtain ⟨m1, h1, g1⟩ := step_refines c s m op hg
+    obtain ⟨m', h2, g2⟩ := ih (step c s op).1 m1 g1
+    rw [step_locked] at h2
+    exact ⟨m', ⟨m1, h1, h2⟩, g2⟩
 
 /-- in particular from a freshly constructed table of any capacity, for any configuration -/
 theorem seq_refines_from_init (c : Cfg κ) (n : Nat) (hS : 0 < c.S) (hM : ∃ j, c.M = 2 ^ j) (ops : List (Op κ ν)) :
     ∃ m', specRun false [] ops (run c ⟨(Table.init c n : Table κ ν), false⟩ ops).2 m' ∧
       Good c (run c ⟨(Table.init c n : Table κ ν), false⟩ ops).1 m' := by
-  sorry
+  obtain ⟨a1, a2⟩ := init_refines (ν := ν) c n hS hM
+  exact seq_refines c ops ⟨Table.init c n, false⟩ [] ⟨a1, a2, fun e => by cases e⟩
 
 end Cuckoo.Props.C02
